@@ -44,6 +44,7 @@ type VC struct {
 	closure  map[string]map[string]bool
 	assumeBase map[int]map[string]bool
 	symMu    sync.Mutex
+	bodies   map[string]string
 	defLen   map[string]int
 	assumeSize map[int]int
 }
@@ -117,6 +118,10 @@ func (vc *VC) def(hint string, t T) T {
 	vc.decls = append(vc.decls, fmt.Sprintf("(define-fun %s () %s %s)", name, t.Sort, t.S))
 	r := T{name, t.Sort}
 	vc.defCache[key] = r
+	if vc.bodies == nil {
+		vc.bodies = map[string]string{}
+	}
+	vc.bodies[name] = t.S
 	return r
 }
 
